@@ -1,4 +1,63 @@
+(** C01 — ITS encoding of a mapped reaction is lossless and invertible.
+    Statements only; every proof is [exact <lemma of proof/C01_Proof.v>].
+    Vocabulary (model/C01_Model.v, lib/LGraph.v):  [wf] = distinct node ids, edges between present distinct
+    nodes, one entry per unordered pair;  [same_nodes G H] = equal node-id sets ("atom-balanced");
+    [orders_pos] = every stored bond order > 0;  [geq_sel G' G] = same atoms with equal element, aromatic,
+    hcount, charge and equal bond maps;  [amap_id] = atom_map is the node id;  orders are half-units. *)
 From Coq Require Import List NArith ZArith Bool.
-From SK Require Import lib.LGraph model.C01_Model proof.C01_Proof.
-Theorem C01_stub : forall a n, g_amap (dec_node a n) = Z.of_N n. Proof. exact stub_c01. Qed.
-Print Assumptions C01_stub.
+From SK Require Import lib.LGraph lib.C01_GraphLemmas model.C01_Model proof.C01_Proof.
+Local Open Scope Z_scope.
+
+(** 1. decompose (construct (G, H)) = (G, H) *)
+Theorem C01_roundtrip : forall G H : mgraph,
+  wf G -> wf H -> same_nodes G H -> orders_pos G -> orders_pos H ->
+  geq_sel (fst (its_decompose (its_construct G H))) G /\ amap_id (fst (its_decompose (its_construct G H))) /\
+  geq_sel (snd (its_decompose (its_construct G H))) H /\ amap_id (snd (its_decompose (its_construct G H))).
+Proof. exact roundtrip. Qed.
+Print Assumptions C01_roundtrip.
+
+(** 2. the ITS has exactly the union of the atoms and bonds; typesGH = the two sides' attribute tuples
+       (defaults for a missing side); every bond carries (order in G or 0, order in H or 0) and their
+       difference; the result is a well-formed, standard_order-consistent ITS (this is what C02 needs) *)
+Theorem C01_union : forall G H : mgraph, wf G -> wf H ->
+  let I := its_construct G H in
+  (forall n, In n (node_ids I) <-> In n (node_ids G) \/ In n (node_ids H)) /\
+  (forall n a, label I n = Some a -> i_G a = side_tuple G n /\ i_H a = side_tuple H n) /\
+  (forall u v a b s, adj I u v = Some (IE a b s) <->
+      a = order_in G u v /\ b = order_in H u v /\ (adj G u v <> None \/ adj H u v <> None) /\ s = a - b) /\
+  std_consistent I /\ wf I.
+Proof. exact union. Qed.
+Print Assumptions C01_union.
+
+(** 3. construct and decompose commute with every injective renumbering of the node ids
+       (its_decompose writes atom_map := node id, hence [set_amap]) *)
+Theorem C01_equivariant : forall f : N -> N, (forall a b, f a = f b -> a = b) ->
+  forall (G H : mgraph) (I : its),
+  its_construct (relabel f G) (relabel f H) = relabel f (its_construct G H) /\
+  its_decompose (relabel f I) =
+    (set_amap (relabel f (fst (its_decompose I))), set_amap (relabel f (snd (its_decompose I)))).
+Proof. exact equivariant. Qed.
+Print Assumptions C01_equivariant.
+
+(** 4. "atom-balanced" is necessary: without [same_nodes] the round trip fails
+       (an atom present on one side only comes back as a "*" atom on the other side) *)
+Theorem C01_one_sided_refuted :
+  exists G H : mgraph, wf G /\ wf H /\ orders_pos G /\ orders_pos H /\ ~ same_nodes G H /\
+    ~ geq_sel (snd (its_decompose (its_construct G H))) H.
+Proof. exact one_sided_refuted. Qed.
+Print Assumptions C01_one_sided_refuted.
+
+(** 5. string level, relative to the RDKit contract S1 (first premise): [parse] = rsmi_to_graph,
+       [write] = graph_to_rsmi are oracles (modelled, NOT verified; monitored on the corpora).
+       FULL CLAIM of the property text, not proved: for RDKit's actual parser and writer,
+       its_to_rsmi (rsmi_to_its r) is atom-map-equivalent to r and has the same unmapped sides.
+       Missing: S1 itself and totality of [write] (RDKit may refuse a graph) — both only tested. *)
+Theorem C01_rsmi_partial : forall (rsmi : Type) (parse : rsmi -> option (mgraph * mgraph))
+    (write : mgraph -> mgraph -> its -> option rsmi),
+  (forall g h I s, write g h I = Some s ->
+     exists g' h', parse s = Some (g', h') /\ geq_sel g' g /\ geq_sel h' h) ->
+  forall r G H, parse r = Some (G, H) -> wf G -> wf H -> same_nodes G H -> orders_pos G -> orders_pos H ->
+  forall I s, rsmi_to_its parse r = Some I -> its_to_rsmi write I = Some s ->
+  exists G' H', parse s = Some (G', H') /\ geq_sel G' G /\ geq_sel H' H.
+Proof. exact rsmi_partial. Qed.
+Print Assumptions C01_rsmi_partial.
